@@ -473,4 +473,4 @@ SWEEP_BOUND = ('real Scheduler/QueueScheduling on all DAGs <= 3 tasks with hard/
 PARK_BOUND = ('graph A -> B (hard and soft) + independent C, 3 workers; the worker of A is parked (threading.settrace) before every executed line '
               'of WorkerThread.run after task.do(); one preemption per run; B must read A complete whenever it starts')
 RERUN_BOUND = ('two-run histories on all DAGs <= 3 tasks, first-run outcomes {done, failed}^n, between the runs each task keeps / loses its persisted '
-               'entry / starts failing / recovers; carried over with merge_done_tasks; seeded sample in the quick tier, every case in the thorough tier')
+               'entry / starts failing / recovers / is older than its re-executed dependencies / is a seeded entry without clocks; carried over with merge_done_tasks; seeded sample in the quick tier, every case in the thorough tier')
